@@ -826,6 +826,7 @@ pub trait Sx:
     + approx::RelativeEq
     + approx::UlpsEq
     + From<u16>
+    + From<u8>
     + std::fmt::Debug
     + std::fmt::Display
     + Default
